@@ -108,6 +108,32 @@ func checkNilInt(w *World, r *Report, tm *Terms) {
 						}
 					}
 				}
+				if !present {
+					// (c) the entry was just made sure of: a comma-ok read of the same map under the same key dominates this
+					// read, and a store under that key sits on its branch (`if _, ok := m[k]; !ok { m[k] = zero }`)
+					for _, b2 := range fn.Blocks {
+						for _, in2 := range b2.Instrs {
+							l2, ok := in2.(*ssa.Lookup)
+							if !ok || !l2.CommaOk || l2 == lk || !instrDominates(l2, lk) {
+								continue
+							}
+							if uncell(tm.Of(fr, l2.X)).Key() != m.Key() || tm.Of(fr, l2.Index).Key() != k.Key() {
+								continue
+							}
+							for _, b3 := range fn.Blocks {
+								for _, in3 := range b3.Instrs {
+									mu, ok := in3.(*ssa.MapUpdate)
+									if !ok || !instrDominates(l2, mu) || instrDominates(lk, mu) {
+										continue
+									}
+									if uncell(tm.Of(fr, mu.Map)).Key() == m.Key() && tm.Of(fr, mu.Key).Key() == k.Key() {
+										present, how = true, "a comma-ok read of the same entry, completed by a store when it is absent, comes first"
+									}
+								}
+							}
+						}
+					}
+				}
 				var ts []string
 				for t := range keyTypes(fr, m) {
 					ts = append(ts, t)
